@@ -9,7 +9,7 @@ from .common import LEAN, REPO, write_if_changed
 sys.path.insert(0, str(Path(__file__).resolve().parent.parent))
 
 
-ALL = ("scopemap", "builtin", "envconfig", "checkapi", "skeletons", "alias", "registry", "columnprops", "scriptslots", "inferstats", "decorators", "modelrules", "coercerules", "backendrules", "strategyrules", "subsamplerules", "schemamutation")
+ALL = ("scopemap", "builtin", "envconfig", "checkapi", "skeletons", "alias", "registry", "columnprops", "scriptslots", "inferstats", "decorators", "modelrules", "coercerules", "backendrules", "strategyrules", "subsamplerules", "schemamutation", "kindprograms")
 
 
 def regenerate(which=("scopemap",)) -> dict:
@@ -34,6 +34,9 @@ def regenerate(which=("scopemap",)) -> dict:
     if "alias" in which:
         from extract import alias_skeletons
         write_if_changed(gen / "AliasSkeletons.lean", alias_skeletons.render(REPO))
+    if "kindprograms" in which:
+        from extract import kind_programs
+        write_if_changed(gen / "KindPrograms.lean", kind_programs.render(REPO))
     if "registry" in which:
         # needs the engines of /repo: run in the interpreter that imports it
         import subprocess, json as _json
